@@ -323,6 +323,24 @@ theorem getUnverified_fold (height : Nat) (p : Pool H) (txs : List H) :
     · have : (t == e.hash) = false := by simpa using fun h => het h.symm
       simp [het, List.contains_cons, this]
 
+/-! ### worker level -/
+
+theorem mem_foldl_add (l : List (H × List Attr)) (q : Pool H) (e : Entry H)
+    (he : e ∈ l.foldl (fun q p => (add q ⟨p.1, p.2⟩).1) q) : e ∈ q ∨ ∃ p ∈ l, e = ⟨p.1, p.2⟩ := by
+  induction l generalizing q with
+  | nil => exact Or.inl he
+  | cons a t ih =>
+    simp only [List.foldl_cons] at he
+    rcases ih _ he with h | ⟨p, hp, rfl⟩
+    · unfold add at h
+      split at h
+      · exact Or.inl h
+      · simp only [List.mem_append, List.mem_singleton] at h
+        rcases h with h | rfl
+        · exact Or.inl h
+        · exact Or.inr ⟨a, List.mem_cons_self, rfl⟩
+    · exact Or.inr ⟨p, List.mem_cons_of_mem _ hp, rfl⟩
+
 /-! ### all operation sequences -/
 
 theorem step_nodup {p : Pool H} (hp : (keys p).Nodup) (op : Op H) : (keys (step p op)).Nodup := by
